@@ -25,9 +25,18 @@ TzstrExplains(e) ==
                                            types |-> IF p.rule.k = "fixed" THEN <<p.rule.std>> ELSE <<p.rule.std, p.rule.dst>>]))
    /\ (e.gen => p.k = "ok")                              \* grammar-generated strings are of the two forms (checked, not trusted)
    /\ NoQueryPanics(e.q) /\ AllocOK(e)
+\* a reader is a function of its argument: what the same thread read before (the same text in the other dialect) changes nothing,
+\* and each of the outcomes is one the grammar allows
+SeqExplains(e) ==
+   LET plain == Parse(e.chars, FALSE)  ext == Parse(e.chars, TRUE)
+       Fits(p, r) == p.k = "ok" => (IsOk(r) /\ SameZoneJ(r.ok, [trans |-> <<>>, rule |-> p.rule,
+                                          types |-> IF p.rule.k = "fixed" THEN <<p.rule.std>> ELSE <<p.rule.std, p.rule.dst>>])) IN
+   /\ e.plain_after_v3 = e.plain_fresh /\ e.v3_after_plain = e.v3_fresh /\ e.env_after_v3 = e.env_fresh
+   /\ Fits(plain, e.plain_fresh) /\ Fits(ext, e.v3_fresh)
 Explains(e) ==
   /\ NoPanic(e)
-  /\ \/ e.op = "tzif"  /\ TzifExplains(e)
+  /\ \/ e.op = "tzstr_seq" /\ SeqExplains(e)
+     \/ e.op = "tzif"  /\ TzifExplains(e)
      \/ e.op = "tzstr" /\ TzstrExplains(e)
 Init == l = 1
 Next == /\ l <= Len(Rec) /\ Report(l, Explains(Ev)) /\ l' = l + 1
